@@ -84,6 +84,7 @@ func sanitize(f *ast.File, names map[string]bool) error {
 		rand: rand.New(rand.NewPCG(123, 456)), // ensure determinism between runs
 
 		names:      map[string]bool{},
+		pkgNames:   names,
 		importMap:  map[string]*ast.ImportSpec{},
 		referenced: map[ast.Node]bool{},
 		altMap:     map[ast.Node]string{},
@@ -133,7 +134,12 @@ type sanitizer struct {
 	rand *rand.Rand
 
 	// names is all used names. Can be used to determine a new unique name.
-	names      map[string]bool
+	names map[string]bool
+	// pkgNames holds the names of the top-level fields of all files of the
+	// package (nil if unknown). Unlike names it only has names that are in
+	// scope in every file, so it can be used to decide whether a predeclared
+	// identifier is shadowed from another file.
+	pkgNames   map[string]bool
 	referenced map[ast.Node]bool
 
 	// altMap defines an alternative name for an existing entry link (a field,
@@ -242,7 +248,7 @@ func (z *sanitizer) handleIdent(s *scope, n *ast.Ident) bool {
 		if n.IsPredeclared() {
 			// Check if the predeclared name is shadowed by a top-level field
 			// in another file of the same package.
-			if z.names[n.Name] {
+			if z.pkgNames[n.Name] {
 				n.Name = "__" + n.Name
 			}
 			n.Scope = nil
